@@ -12,7 +12,8 @@ META = {
             "blocks the transcription writes, verdict) is a test case: the harness renders OpenMetrics text (two metric families "
             "or interleaved label variants of one, seeded batch size and custom labels), runs promtool's backfill(), opens the "
             "output with DBReadOnly and compares every block's range, labels, timestamps and values with the demanded blocks.",
-    "note": "Bounded: <=3 samples over 2 series and 4 windows exhaustively (quick), 5 value classes over 2 windows, <=9 samples / 3 "
+    "note": "Bounded: <=3 samples over 2 series and 4 windows exhaustively (quick), 1 series over 6 windows (4 negative) with empty ranges "
+            "between samples, 5 value classes over 2 windows, <=9 samples / 3 "
             "series / 7 windows by seeded simulation; block duration 2h only (maxBlockDuration <= 2h). Millisecond values are "
             "restricted to those that survive the OpenMetrics seconds text form (the parser computes int64(seconds*1000)). "
             "Per-series input order is increasing in time (OpenMetrics requirement).",
@@ -32,11 +33,16 @@ def run(ctx):
     q = ctx.quick
     rnd = random.Random(ctx.seed)
     recs = []
-    for cfg, per_class in [("MC_quick.cfg", 1 if q else 3), ("MC_vals.cfg", 2 if q else 6)]:
+    # MC_gap: one series over 4 negative and 2 positive block ranges; only the inputs that leave a whole range
+    # empty before a later *negative* sample are taken from it (class index 9 = "empty window between populated
+    # ones", index 10 = where the first sample after such a gap lies); MC_quick covers the rest
+    for cfg, per_class in [("MC_quick.cfg", 1 if q else 3), ("MC_vals.cfg", 2 if q else 6), ("MC_gap.cfg", 1 if q else 3)]:
         mc = ctx.tlc("backfill", "Backfill", cfg, workers=4, timeout=900)
         ctx.account(mc)
         by = {}
         for r in mc.emitted:
+            if cfg == "MC_gap.cfg" and not (r["cl"][9] and any(x.startswith("neg") for x in r["cl"][10])):
+                continue
             by.setdefault(json.dumps(r["cl"]), []).append(r)
         n = 0
         for k in sorted(by):
